@@ -1545,6 +1545,12 @@ impl AnnotationStore {
         textual_order: bool,
     ) -> Result<Vec<Selector>, StamError> {
         let mut tmp = Vec::with_capacity(builders.len());
+        if builders.iter().any(|builder| builder.is_complex()) {
+            //reject this before anything is resolved: resolving a text selector may add a text selection to a resource
+            return Err(StamError::WrongSelectorType(
+                "Complex selectors may not be nested",
+            ));
+        }
         for builder in builders {
             if builder.is_complex() {
                 return Err(StamError::WrongSelectorType(
